@@ -60,6 +60,10 @@ class Check:
     partial: str = ""
 
 
+def _glue_obs(o):
+    return isinstance(o, dict) and o.get("error") == "harness_glue"
+
+
 def load_known(pid):
     f = C.VERIF / "known_findings.json"
     if not f.exists():
@@ -207,11 +211,12 @@ def run(pid, tier, seed, replay, t0):
             keys = set()
             n_dis = 0
             n_orc = 0
-            glue = [io for io in impl_obs + model_obs if isinstance(io, dict) and io.get("glue")]
+            glue = [(c, o) for (_, c), io, mo in zip(cases, impl_obs, model_obs) for o in (io, mo) if _glue_obs(o)]
             if glue:
-                glue_breaks.append(dict(section=sec.name, theorems=sec.theorems, cases=len(glue), of=len(cases), msg=sorted({g["msg"] for g in glue})[:5]))
+                glue.sort(key=lambda co: len(C.jdump(co[0])))
+                glue_breaks.append(dict(section=sec.name, theorems=sec.theorems, cases=len(glue), of=len(cases), msg=sorted({g["msg"] for _, g in glue})[:5], example_input=glue[0][0]))
             for (src, c), io, mo in zip(cases, impl_obs, model_obs):
-                if (isinstance(io, dict) and io.get("glue")) or (isinstance(mo, dict) and mo.get("glue")):
+                if _glue_obs(io) or _glue_obs(mo):
                     continue  # the harness could not observe this case: nothing to judge (reported once per section below)
                 if sec.describe:
                     b = sec.describe(c, io)
@@ -258,7 +263,7 @@ def run(pid, tier, seed, replay, t0):
                         if budget < 0:
                             break
                         io2 = C.guarded(sec.impl, c2)
-                        if isinstance(io2, dict) and io2.get("glue"):
+                        if _glue_obs(io2):
                             continue
                         try:
                             why2 = sec.oracle(c2, io2)
@@ -311,7 +316,7 @@ def run(pid, tier, seed, replay, t0):
             continue
         nrep += 1
         rp = C.REPLAYS / f"{pid}-{seed}-{nrep}.json"
-        rp.write_text(C.jdump(dict(property=pid, kind="no-failing-input-found", section=gb["section"], broken=f"correspondence model~implementation for section {gb['section']} (transfers theorems {', '.join(gb['theorems'])}) could not be run on {gb['cases']} of {gb['of']} cases: the harness no longer binds to the implementation", harness_errors=gb["msg"], input=None, oracle="every section that could still be run found no failing input" if not n_viol else "see the other replays of this run", seed=seed), indent=1))
+        rp.write_text(C.jdump(dict(property=pid, kind="no-failing-input-found", section=gb["section"], broken=f"correspondence model~implementation for section {gb['section']} (transfers theorems {', '.join(gb['theorems'])}) could not be run on {gb['cases']} of {gb['of']} cases: the harness no longer binds to the implementation", harness_errors=gb["msg"], input=gb["example_input"], oracle="every section that could still be run found no failing input" if not n_viol else "see the other replays of this run", seed=seed), indent=1))
         if not any(l.startswith("VIOLATION") and "no-failing-input-found" not in l for l in out_lines):
             out_lines.append(f"VIOLATION property={pid} replay={rp} no-failing-input-found")
         n_viol += 1
